@@ -98,8 +98,14 @@ def build_unit(name, workdir, strip_loops=None):
     ast = cast.Ast(objs)
     L, funs = lower.lower_unit(ast, u, strip_loops)
     harn = ''
+    missing = {}
     for p in u.PROOFS:
-        harn += auto_harness(L, funs, p)
+        try:
+            harn += auto_harness(L, funs, p)
+        except PipelineError as e:
+            # the function a proof is about is gone (an edit of /repo removed or renamed it, e.g. a lambda): that proof ends in a tool
+            # error, the other proofs of the unit still run
+            missing[p['name']] = str(e)
     text = lower.emit_c(L, funs, u, harn)
     cfile = os.path.join(workdir, name + '.c')
     open(cfile, 'w').write(text)
@@ -111,7 +117,7 @@ def build_unit(name, workdir, strip_loops=None):
     if errs and not os.environ.get('VS_NOLINT'):
         raise PipelineError('generated C for unit %s fails the type lint (lowering bug, not a violation):\n  ' % name + '\n  '.join(errs[:8]))
     # every loop of a function proved with loop contracts must have one
-    return {'unit': u, 'cfile': cfile, 'L': L, 'funs': funs, 'dump_cmds': cmds, 'lower_s': time.time() - t0,
+    return {'unit': u, 'cfile': cfile, 'L': L, 'funs': funs, 'missing': missing, 'dump_cmds': cmds, 'lower_s': time.time() - t0,
             'assumptions': sorted(L.assumptions), 'csha': hashlib.sha256(text.encode()).hexdigest()}
 
 
@@ -181,6 +187,9 @@ def _run_proof(built, proof, workdir, extra_defs=(), trace=False):
            'mode': 'unbounded' if proof.get('loops', 'none') in ('contracts', 'none') else 'bounded'}
     mode = proof.get('loops', 'none')
     ctext = open(built['cfile']).read()
+    if name in built.get('missing', {}):
+        res['error'] = built['missing'][name]
+        return res
     aborted = getattr(built['L'], 'aborted', {})
     if aborted:
         # does this proof need the body of a function that could not be lowered?  (its own function, or a callee that is not replaced by
@@ -223,6 +232,8 @@ def _run_proof(built, proof, workdir, extra_defs=(), trace=False):
             gi += ['--enforce-contract-rec' if proof.get('rec') else '--enforce-contract', proof['enforce']]
         used = [x for x in ([] if proof.get('exec') else getattr(u, 'ALWAYS_REPLACE', [])) if x not in proof.get('no_replace', []) and ctext.count(x + '(') >= (2 if (x + '(') in getattr(u, 'PRELUDE', '') + getattr(u, 'PRELUDE_AFTER_RECORDS', '') else 1)]
         for r in list(proof.get('replace', [])) + used:
+            if not re.search(r'\b%s\s*\(' % re.escape(r), ctext):
+                continue          # a callee that is no longer in the unit (removed by an edit of /repo) cannot be replaced
             gi += ['--replace-call-with-contract', r]
         if mode == 'contracts':
             gi += ['--apply-loop-contracts']
